@@ -428,7 +428,17 @@ fn build_item(d: &mut Dice) -> (Item, Vec<String>, Vec<String>) {
     match cls {
         "AddLike" | "NotLike" => {
             let names: &[&str] = if cls == "AddLike" { &["Add", "Sub", "BitAnd", "BitOr", "BitXor"] } else { &["Not", "Neg"] };
-            item.dm_derives.push(pick_names(d, names));
+            if cls == "AddLike" && d.chance(18) {
+                // mul.md: the Mul family with `forward` follows the Add-like rules, enums included
+                let dn = pick_names(d, &["Mul", "Div", "Rem", "Shr", "Shl"]);
+                let attr = super::dm::Derive::by_name(&dn).unwrap().info().attr.unwrap();
+                item.cont_attrs.push(format!("#[{attr}(forward)]"));
+                labels.push("attr=forward".into());
+                labels.push("mul_forward_add_like_shape".into());
+                item.dm_derives.push(dn);
+            } else {
+                item.dm_derives.push(pick_names(d, names));
+            }
             if d.chance(55) {
                 let n = d.range(1, 4);
                 let fg = gen_field_types(d, n, Pool::Universal, allow_generics);
@@ -1042,7 +1052,10 @@ pub fn prop() -> DiceProp {
         classify: classify_with_warnings,
         rule: "derive (all 50, grouped in 20 classes) x item kind (unit/tuple/named struct, enum mixing unit/tuple/named variants, union) x generics (0..2 lifetimes, 0..2 type parameters with inline bounds/defaults, 0..3 const parameters incl. unused and defaulted, where-clauses, consts before types) x field types (universal helper types implementing every required trait, bare type parameters, composites where the derive requires nothing) x raw-identifier field/variant names x documented attributes x decorations (#[deprecated] field/variant, uninhabited field); oracle: rustc (`cargo check`) accepts the case and reports no warning whose primary span lies in a derive expansion; control rendering without derive_more guards generator soundness; non-trivial = has a generic parameter, an attribute, a raw identifier or a decoration; distinct by program text".into(),
         assumptions: vec!["support table of what each derive documents (DESIGN Appendix A) is transcribed correctly".into()],
-        floors: vec![
+        floors: super::dm::DERIVES
+            .iter()
+            .map(|d| (format!("derive={}", d.name), 0.003))
+            .chain([
             ("generics=none".into(), 0.1),
             ("generics=lifetime".into(), 0.03),
             ("generics=type".into(), 0.1),
@@ -1050,7 +1063,8 @@ pub fn prop() -> DiceProp {
             ("generics=mixed".into(), 0.1),
             ("decoration=deprecated_variant".into(), 0.02),
             ("decoration=deprecated_field".into(), 0.02),
-        ],
+        ])
+            .collect(),
         shards: 0,
     }
 }
